@@ -127,7 +127,7 @@ Fixpoint dq_fold (ps : list wpiece) (acc : list wfield) : res (list wfield) :=
   match ps with
   | [] => Ok acc
   | p :: r => match expand_piece o e true p with
-              | Ok x => dq_fold r (dq_step (ifs_first_char e) acc x)
+              | Ok x => dq_fold r (dq_step (ifs_joiner e) acc x)
               | Err c => Err c
               end
   end.
